@@ -392,6 +392,10 @@ impl SchemaConverter {
                         } else {
                             "any".to_string()
                         };
+                        // `string?[]` / `"a" | "b"[]` would bind `[]` to the last alternative only
+                        if item_type.ends_with('?') || item_type.contains(" | ") {
+                            return format!("({})[]", item_type);
+                        }
                         return format!("{}[]", item_type);
                     }
                     "object" => {
